@@ -462,6 +462,18 @@ pub fn run_c14(cfg: &BatchCfg, corpus_size: usize, pristine_sample: usize) -> i3
         }
     }
 
+    // process-level side effects other than output: environment variables and live threads
+    let env_before: std::collections::BTreeMap<String, String> = std::env::vars_os()
+        .map(|(k, v)| (k.to_string_lossy().into_owned(), v.to_string_lossy().into_owned()))
+        .collect();
+    let threads_now = || -> usize {
+        std::fs::read_to_string("/proc/self/status")
+            .ok()
+            .and_then(|s| s.lines().find(|l| l.starts_with("Threads:")).and_then(|l| l.split_whitespace().nth(1).and_then(|n| n.parse().ok())))
+            .unwrap_or(0)
+    };
+    let threads_before = threads_now();
+
     // ---- everything from here on runs with fd 1 / fd 2 captured
     let cap = Capture::start();
 
@@ -523,6 +535,35 @@ pub fn run_c14(cfg: &BatchCfg, corpus_size: usize, pristine_sample: usize) -> i3
     let outcome = if soak_hit.is_some() { None } else if silence_hit.is_none() && direct_mismatch.is_none() { Some(run_batch(&check, cfg)) } else { None };
     let captured = cap.stop();
     // ---- capture ends
+    let env_after: std::collections::BTreeMap<String, String> = std::env::vars_os()
+        .map(|(k, v)| (k.to_string_lossy().into_owned(), v.to_string_lossy().into_owned()))
+        .collect();
+    // give detached threads of the code under test no excuse: all harness threads are joined by now
+    let mut threads_after = threads_now();
+    for _ in 0..20 {
+        if threads_after <= threads_before {
+            break;
+        }
+        std::thread::sleep(std::time::Duration::from_millis(50));
+        threads_after = threads_now();
+    }
+    if env_after != env_before || (threads_before > 0 && threads_after > threads_before) {
+        let changed: Vec<String> = env_after
+            .iter()
+            .filter(|(k, v)| env_before.get(*k) != Some(*v))
+            .map(|(k, v)| format!("{k}={v}"))
+            .chain(env_before.keys().filter(|k| !env_after.contains_key(*k)).map(|k| format!("{k} removed")))
+            .collect();
+        let detail = format!(
+            "library calls left a process-level side effect behind: environment changes {:?}; live threads before {} after {}",
+            changed, threads_before, threads_after
+        );
+        let p = replay_dir().join(format!("C14-{}-process-side-effect.txt", cfg.seed));
+        let _ = std::fs::write(&p, &detail);
+        lines.push(format!("violation detail: oracle=E2-process-side-effects {detail}"));
+        lines.push(format!("VIOLATION property=C14 replay={}", p.display()));
+        return fail(&lines, 1);
+    }
 
     if let Some((i, n)) = silence_hit {
         let detail = format!(
